@@ -76,6 +76,34 @@ func CheckInvariants(a *App, st *AppState, c InvCtx) []core.Violation {
 				"sum of all balances in the second denomination %s != recorded supply %s", dsum, st.SupplyDust))
 		}
 	}
+	if st.SupplyOK {
+		denoms := map[string]bool{}
+		for d := range st.Other {
+			denoms[d] = true
+		}
+		for d := range st.SupplyOther {
+			denoms[d] = true
+		}
+		ds := make([]string, 0, len(denoms))
+		for d := range denoms {
+			ds = append(ds, d)
+		}
+		sort.Strings(ds)
+		for _, d := range ds {
+			sum := new(big.Int)
+			for _, b := range st.Other[d] {
+				sum.Add(sum, b)
+			}
+			sup := st.SupplyOther[d]
+			if sup == nil {
+				sup = new(big.Int)
+			}
+			if sum.Cmp(sup) != 0 {
+				rep("C02/supply-other/"+d, new(big.Int).Sub(sum, sup).String(), viol("C02", "supply-equals-balances", c.Step, map[string]string{"phase": c.Phase, "denom": "other"},
+					"sum of all balances in denomination %q is %s, recorded supply %s", d, sum, sup))
+			}
+		}
+	}
 	if len(st.Negative) > 0 {
 		rep("C02/neg", fmt.Sprint(st.Negative), viol("C02", "negative-balance", c.Step, ph, "negative balance at %v", st.Negative))
 	}
